@@ -9,9 +9,9 @@ package c04
 import (
 	"context"
 	"encoding/json"
-	"os"
 	"fmt"
 	"math/rand"
+	"os"
 	"sort"
 	"strings"
 
@@ -37,13 +37,18 @@ func Run(ctx *core.Ctx) {
 	run := &Runner{Pool: pool}
 	ctx.Extra["js_engine"] = pool.Engine()
 
-	h := &Harness{ctx: ctx, run: run, reasons: map[string]int{}, verdicts: map[string]int{}}
+	h := &Harness{ctx: ctx, run: run, reasons: map[string]int{}, verdicts: map[string]int{}, sigs: map[string]int{}}
+	if ctx.ReplayPath != "" {
+		h.Replay(ctx.ReplayPath)
+		return
+	}
 	h.ScopeModel()
 	h.Families()
 	h.RandomExprs(ctx.Pick(4000, 40000))
 	h.RandomProgs(ctx.Pick(1500, 20000))
 	ctx.Extra["out_of_subset_reasons"] = h.reasons
 	ctx.Extra["verdicts"] = h.verdicts
+	ctx.Extra["violations_by_signature"] = h.sigs
 	ctx.Extra["node_restarts"] = pool.Restarts()
 }
 
@@ -54,6 +59,10 @@ type Harness struct {
 	reasons  map[string]int
 	verdicts map[string]int
 	samples  int
+	sigs     map[string]int
+	verbose  bool
+	// fixedFiles, when set (replay), are used instead of unparsing the program
+	fixedFiles []core.File
 }
 
 // ExprCase wraps an expression into a one-print program.
@@ -90,7 +99,7 @@ func (h *Harness) RandomExprs(n int) {
 			env := core.RandEnv(r)
 			g := core.NewExprGen(r, env)
 			g.Wild = 0.03
-			e := g.Gen("any", 1+r.Intn(5))
+			e := g.Gen([]string{"num", "int", "bool", "str", "str", "any"}[r.Intn(6)], 1+r.Intn(5))
 			st := core.Style{Parens: []int{0, 0, 1}[r.Intn(3)], Tight: r.Intn(3) == 0}
 			cases = append(cases, ExprCase("expr-random", e, env, st))
 		}
@@ -122,6 +131,11 @@ func (h *Harness) RandomProgs(n int) {
 // Judge executes the cases on both back ends, has TLC judge them and reports.
 func (h *Harness) Judge(cases []*Case, label string) {
 	ctx := h.ctx
+	if h.fixedFiles != nil {
+		for _, c := range cases {
+			c.FixedFiles = h.fixedFiles
+		}
+	}
 	h.run.ExecAll(cases)
 	var ok []*Case
 	skips := 0
@@ -161,6 +175,7 @@ func (h *Harness) Judge(cases []*Case, label string) {
 		}
 		ctx.Distinct(c.Src() + fmt.Sprint(c.Prog.Data, c.Prog.IJ, c.Msgs, c.Rule))
 		ctx.Disagree++
+		h.Report(c)
 		if p := os.Getenv("VERIF_C04_DUMP"); p != "" {
 			if f, err := os.OpenFile(p, os.O_APPEND|os.O_CREATE|os.O_WRONLY, 0o644); err == nil {
 				b, _ := json.Marshal(c)
@@ -168,7 +183,6 @@ func (h *Harness) Judge(cases []*Case, label string) {
 				f.Close()
 			}
 		}
-		h.Report(c)
 	}
 }
 
@@ -187,24 +201,122 @@ func (h *Harness) Report(c *Case) {
 		}
 		return
 	}
-	h.ctx.Violation(core.Sig{Family: c.Family, Feature: h.Classify(c)}, what, c)
+	c.Features = h.Classify(c)
+	for _, f := range c.Features {
+		h.sigs[c.Family+"/"+f]++
+		h.ctx.Violation(core.Sig{Family: c.Family, Feature: f}, what, c)
+	}
 }
 
-func firstLine(s string) string {
-	if i := strings.IndexByte(s, '\n'); i >= 0 {
-		s = s[:i]
+// Replay re-runs one saved case (out/replay/*.json) verbosely.
+func (h *Harness) Replay(path string) {
+	b, err := os.ReadFile(path)
+	if err != nil {
+		h.ctx.ToolError("replay: %v", err)
+		return
 	}
-	if len(s) > 160 {
-		s = s[:160]
+	var v struct {
+		Sig    core.Sig
+		Replay json.RawMessage
 	}
-	return s
+	if err := json.Unmarshal(b, &v); err != nil {
+		h.ctx.ToolError("replay: %v", err)
+		return
+	}
+	c := &Case{}
+	if err := json.Unmarshal(v.Replay, c); err != nil {
+		h.ctx.ToolError("replay: %v", err)
+		return
+	}
+	// unparse-only fields are not in the JSON: keep the recorded source text
+	files := c.Files
+	c.Go, c.JSObs, c.JS, c.Verdict, c.Features = core.Obs{}, core.Obs{}, nil, "", nil
+	h.verbose = true
+	h.fixedFiles = files
+	h.Judge([]*Case{c}, "replay")
+	fmt.Printf("REPLAY verdict=%s reason=%s features=%v\n go: %+v\n js: %+v\n spec: %q\n", c.Verdict, c.Reason, c.Features, c.Go, c.JSObs, c.ExpOut)
+	for _, f := range c.Files {
+		fmt.Println(f.Text)
+	}
+	for _, j := range c.JS {
+		fmt.Println(j)
+	}
 }
 
-// Classify names the structural feature of a disagreement.
-func (h *Harness) Classify(c *Case) string {
+// agree compares two observations the way the property does (classification
+// only; verdicts come from TLC).
+func agree(a, b core.Obs) bool {
+	if a.Err != b.Err {
+		return false
+	}
+	return a.Err || canon(a.Out) == canon(b.Out)
+}
+
+type rewrite struct {
+	feature string
+	f       func(*core.Program) (*core.Program, bool)
+}
+
+var rewrites = []rewrite{
+	{"neg-of-negative-literal", DropDoubleNeg},
+	{"neg-before-nullsafe-ref", ParenNegNullSafe},
+	{"isNonnull-of-nullsafe-ref", ParenIsNonnullNullSafe},
+	{"foreach-over-range", RangeToList},
+	{"let-reads-the-name-it-binds", SplitSelfRef},
+	{"local-visible-after-its-block", func(p *core.Program) (*core.Program, bool) { return AlphaRename(p), true }},
+}
+
+// Classify names the structural features of a disagreement. Each rewrite
+// removes the trigger of one class of generator defects while preserving the
+// program's meaning (the Go output must stay the same); a rewrite that changes
+// what the JavaScript prints names a class the disagreement belongs to. What
+// is left after all rewrites is named by its symptom.
+func (h *Harness) Classify(c *Case) []string {
+	var feats []string
+	if c.Verdict == "GO" {
+		// JS = spec, Go differs: the Go side left the language
+		return []string{c.featurePrefix() + "go-differs-from-spec-and-js"}
+	}
+	cur := c
+	for _, rw := range rewrites {
+		if c.Msgs != "" {
+			break // catalogue fields are tied to the original bodies
+		}
+		q, changed := rw.f(cur.Prog)
+		if !changed {
+			continue
+		}
+		nc := &Case{Family: c.Family, Prog: q, Style: c.Style}
+		h.run.Exec(nc)
+		h.ctx.AddEvals(1)
+		if h.verbose {
+			fmt.Printf("rewrite %s: skip=%q go=%+v js=%+v\n%s\n", rw.feature, nc.Skip, nc.Go, nc.JSObs, nc.Src())
+		}
+		if nc.Skip != "" || !agree(nc.Go, c.Go) {
+			continue // not applicable (compiler rejects it) or not meaning-preserving here
+		}
+		if !agree(nc.JSObs, cur.JSObs) || nc.JSObs.ErrText != cur.JSObs.ErrText {
+			feats = append(feats, c.featurePrefix()+rw.feature)
+		}
+		cur = nc
+		if agree(cur.Go, cur.JSObs) {
+			break
+		}
+	}
+	if !agree(cur.Go, cur.JSObs) || len(feats) == 0 {
+		feats = append(feats, c.featurePrefix()+symptom(cur))
+	}
+	return feats
+}
+
+func (c *Case) featurePrefix() string {
 	if c.Feature != "" {
-		return c.Feature
+		return c.Feature + ","
 	}
+	return ""
+}
+
+func symptom(c *Case) string {
 	switch {
 	case c.JSObs.Err && strings.HasPrefix(c.JSObs.ErrText, "soyjs.Write"):
 		return "js-generation-error"
@@ -218,6 +330,16 @@ func (h *Harness) Classify(c *Case) string {
 	return "output-differs"
 }
 
+func firstLine(s string) string {
+	if i := strings.IndexByte(s, '\n'); i >= 0 {
+		s = s[:i]
+	}
+	if len(s) > 160 {
+		s = s[:160]
+	}
+	return s
+}
+
 func sortedReasonKeys(m map[string]int) []string {
 	var ks []string
 	for k := range m {
@@ -227,12 +349,6 @@ func sortedReasonKeys(m map[string]int) []string {
 	return ks
 }
 
-// Decorate adds $ij references and globals to a random program.
-func Decorate(r *rand.Rand, p *core.Program) {
-}
-
 // ScopeModel is M1 + replay of the SoyJsScope model.
 func (h *Harness) ScopeModel() {}
 
-// Families are the systematic families (c).
-func (h *Harness) Families() {}
